@@ -155,5 +155,28 @@ theorem removeEffs_flow {env : Env} {b b' : Bank} {sender esc : Addr} {std tok l
     simp only [if_true] at f
     omega
 
+/-- the exact changes of a removal at the escrow (provider not the escrow) and of the pool-token supply -/
+theorem removeEffs_exact {env : Env} {b b' : Bank} {sender esc : Addr} {std tok lpt : Denom} {w stdOut tokOut : Nat}
+    (h : b.applyAll (removeEffs env sender esc lpt w std stdOut tok tokOut) = .ok b')
+    (hse : sender ≠ esc) (hd : std ≠ tok) (hls : std ≠ lpt) (hlt : tok ≠ lpt) :
+    b'.get esc std + stdOut = b.get esc std ∧ b'.get esc tok + tokOut = b.get esc tok ∧
+    b'.supply lpt + w = b.supply lpt := by
+  have flow := Bank.applyAll_flow _ _ _ h
+  have hd' : tok ≠ std := fun e => hd e.symm
+  have hes : esc ≠ sender := fun e => hse e.symm
+  refine ⟨?_, ?_, (removeEffs_flow h hd hls hlt).2.2⟩
+  · have f := (flow esc std).1
+    simp only [removeEffs] at f
+    flow_simp at f
+    simp only [hd, hls, hes, and_false, and_true, true_and, false_and, if_false, if_true] at f
+    repeat' split at f
+    all_goals omega
+  · have f := (flow esc tok).1
+    simp only [removeEffs] at f
+    flow_simp at f
+    simp only [hd', hlt, hes, and_false, and_true, true_and, false_and, if_false, if_true] at f
+    repeat' split at f
+    all_goals omega
+
 end Coinswap
 end CV
